@@ -8,7 +8,7 @@ LEVEL = "exploration"
 RULE = ("case = (framing, command kind, comm address, register, count/value/payload length, payload content class, "
         "trailing bytes after an RTU frame); conforming frames are built by the reference codec. Every read count 1..125 "
         "and every AA55 payload length 0..255 is enumerated for the content classes all-00 / all-FF / 7F-80 fill / "
-        "patterned; joint space sampled by Hypothesis; a sample of cases also runs end-to-end through execute(). "
+        "patterned / protocol-marker bytes (AA55, 7FC0, ...); joint space sampled by Hypothesis; a sample of cases also runs end-to-end through execute(). "
         "Non-trivial = payload has a byte >= 0x80, or the frame has trailing bytes, or the AA55 byte sum >= 0x8000; "
         "distinct by (framing, command, frame bytes).")
 ASSUMPTIONS = [
@@ -28,6 +28,10 @@ def _payload(cls, n, salt=0):
         return bytes((0x7F, 0x80) * ((n + 1) // 2))[:n]
     if cls == "fe":
         return b"\xfe" * n
+    if cls == "markers":  # byte patterns that mean something to the framings: envelope markers, headers, function codes
+        pat = b"\xaa\x55\x7f\xc0\xaa\x55\xc0\x7f\xf7\x03\x00\xaa\x55\xf7\x83\x02\x01\x86\xaa\x55\x00\x00"
+        k = salt % len(pat)
+        return ((pat[k:] + pat) * (n // len(pat) + 2))[:n]
     return bytes(((salt * 13 + i * 37 + 5) & 0xFF) for i in range(n))
 
 
@@ -167,7 +171,7 @@ def check_e2e(acc: Acc, case):
 
 
 # ---------------------------------------------------------------------------------------------
-CLASSES = ("zero", "ff", "7f80", "fe", "pattern")
+CLASSES = ("zero", "ff", "7f80", "fe", "pattern", "markers")
 
 
 def enum_job(job):
@@ -187,7 +191,7 @@ def enum_job(job):
                             c2 = dict(case)
                             c2["trailing"] = trailing if trailing is not None else conforming("rtu", "read", addr, reg, count, case["payload"])[0]
                             _apply(acc, c2)
-                    if count in (1, 2, 33, 125) and cls in ("ff", "pattern"):
+                    if (count in (1, 2, 33, 125) and cls in ("ff", "pattern")) or cls == "markers":
                         for keep in (False, True):
                             c3 = dict(case)
                             c3["keep"] = keep
@@ -200,7 +204,7 @@ def enum_job(job):
                 for kind in (("010200", "0182"), ("010600", "0186"), ("010900", "0189")):
                     case = {"framing": "aa55", "kind": list(kind), "addr": 0, "reg": 0, "arg": 0, "payload": _payload(cls, n, n)}
                     _apply(acc, case)
-                    if n in (0, 1, 86, 140, 255) and cls in ("ff", "pattern", "zero"):
+                    if (n in (0, 1, 86, 140, 255) and cls in ("ff", "pattern", "zero")) or cls == "markers":
                         _apply(acc, dict(case, keep=bool(n & 1)), check_e2e)
                 if cls == "pattern" and len(acc.samples) < 1 and n >= 140:
                     acc.sample(case)
@@ -233,7 +237,13 @@ def hyp_job(job):
     seed, n = job
     from hypothesis import strategies as st
     acc = Acc()
-    content = lambda k: st.one_of(st.binary(min_size=k, max_size=k), st.sampled_from(CLASSES).map(lambda c: _payload(c, k, k)))
+    def content(k):
+        raw = st.binary(min_size=k, max_size=k)
+        if k >= 2:  # splice an envelope marker somewhere into random content
+            marked = st.tuples(raw, st.integers(0, k - 2), st.sampled_from((b"\xaa\x55", b"\x7f\xc0", b"\xc0\x7f"))).map(
+                lambda t: t[0][:t[1]] + t[2] + t[0][t[1] + 2:])
+            return st.one_of(raw, marked, st.sampled_from(CLASSES).map(lambda c: _payload(c, k, k)))
+        return st.one_of(raw, st.sampled_from(CLASSES).map(lambda c: _payload(c, k, k)))
 
     @st.composite
     def cases(draw):
@@ -265,7 +275,7 @@ def hyp_job(job):
         if len(acc.samples) < 3:
             acc.sample(case)
         fails = check_frame(acc, case)
-        if not fails and hash(repr(case)) % 8 == 0:
+        if not fails and (hash(repr(case)) % 2 == 0 or b"\xaa\x55" in case.get("payload", b"")):
             fails = check_e2e(acc, dict(case, keep=bool(hash(repr(case)) & 8)))
         return fails
 
@@ -284,7 +294,7 @@ def run(ctx):
     ctx.exhaustive_parts.append("read counts 1..125 and AA55 payload lengths 0..255 x 5 content classes; all even write-multi lengths"
                                 + ("" if ctx.quick else "; every write value -32768..32767"))
     n = ctx.pick(8000, 160000)
-    ctx.shard(hyp_job, [(ctx.seed * 1000 + i, n // 16) for i in range(16)], "hypothesis joint sampling (validator + 1/8 end-to-end)")
+    ctx.shard(hyp_job, [(ctx.seed * 1000 + i, n // 16) for i in range(16)], "hypothesis joint sampling (validator + at least half end-to-end, marker-biased contents)")
 
 
 def replay(ctx, case):
